@@ -96,9 +96,9 @@ Lemma PointAddMixed_prog : forall x1 y1 z1 x2 y2 w,
   (eval_fe (env6 x1 y1 z1 x2 y2 w) pm_x, eval_fe (env6 x1 y1 z1 x2 y2 w) pm_y, eval_fe (env6 x1 y1 z1 x2 y2 w) pm_z).
 Proof.
   intros.
-  unfold PointAddMixed_model, sm2P256PointAddMixed, pm_x, pm_y, pm_z, pm_v, pm_r, pm_r0, pm_j, pm_i, pm_h, pm_s2,
-         pm_z1z1z1, pm_u2, pm_tmp, pm_z1z1.
-  cbn [eval_fe env6]. unfold Mul_model, Square_model, AddFe_model, SubFe_model. reflexivity.
+  cbv beta iota zeta delta [PointAddMixed_model sm2P256PointAddMixed pm_x pm_y pm_z pm_v pm_r pm_r0 pm_j pm_i pm_h pm_s2
+         pm_z1z1z1 pm_u2 pm_tmp pm_z1z1 eval_fe env6 Mul_model Square_model AddFe_model SubFe_model].
+  reflexivity.
 Qed.
 
 Theorem PointAddMixed_limbs_correct : forall J x2 y2, looseJ J -> looseL x2 -> looseL y2 ->
@@ -181,32 +181,34 @@ Proof.
   (* the model's tests are the same comparisons *)
   assert (T1 : sm2P256ToBig gen_curve
                  (sm2P256Mul gen_curve (fe X1) (sm2P256Square gen_curve (fe Z2))) = eval_fe rf pa_u1).
-  { unfold pa_u1, pa_z22, rf. cbn [eval_fe env6]. unfold Mul_model, Square_model.
+  { cbv beta iota zeta delta [pa_u1 pa_z22 rf eval_fe env6 Mul_model Square_model].
     unfold sm2P256ToBig, sm2P256Mul, P256Model.P. apply Z.mod_mod. discriminate. }
   assert (T2 : sm2P256ToBig gen_curve
                  (sm2P256Mul gen_curve (fe X2) (sm2P256Square gen_curve (fe Z1))) = eval_fe rf pa_u2).
-  { unfold pa_u2, pa_z12, rf. cbn [eval_fe env6]. unfold Mul_model, Square_model.
+  { cbv beta iota zeta delta [pa_u2 pa_z12 rf eval_fe env6 Mul_model Square_model].
     unfold sm2P256ToBig, sm2P256Mul, P256Model.P. apply Z.mod_mod. discriminate. }
   assert (T3 : sm2P256ToBig gen_curve
                  (sm2P256Mul gen_curve (fe Y1)
                     (sm2P256Mul gen_curve (sm2P256Square gen_curve (fe Z2)) (fe Z2))) = eval_fe rf pa_s1).
-  { unfold pa_s1, pa_z23, pa_z22, rf. cbn [eval_fe env6]. unfold Mul_model, Square_model.
+  { cbv beta iota zeta delta [pa_s1 pa_z23 pa_z22 rf eval_fe env6 Mul_model Square_model].
     unfold sm2P256ToBig, sm2P256Mul, P256Model.P. apply Z.mod_mod. discriminate. }
   assert (T4 : sm2P256ToBig gen_curve
                  (sm2P256Mul gen_curve (fe Y2)
                     (sm2P256Mul gen_curve (sm2P256Square gen_curve (fe Z1)) (fe Z1))) = eval_fe rf pa_s2).
-  { unfold pa_s2, pa_z13, pa_z12, rf. cbn [eval_fe env6]. unfold Mul_model, Square_model.
+  { cbv beta iota zeta delta [pa_s2 pa_z13 pa_z12 rf eval_fe env6 Mul_model Square_model].
     unfold sm2P256ToBig, sm2P256Mul, P256Model.P. apply Z.mod_mod. discriminate. }
   cbv zeta. rewrite T1, T2, T3, T4. rewrite Eu1, Eu2, Es1, Es2.
   destruct ((eval_fe rf pa_u1 =? eval_fe rf pa_u2) && (eval_fe rf pa_s1 =? eval_fe rf pa_s2))%bool.
-  - destruct (PointDouble_limbs_correct (X1, Y1, Z1)) as [L E]; [repeat split; assumption|].
+  - assert (HJ1 : looseJ (X1, Y1, Z1)) by exact (conj HX1 (conj HY1 HZ1)).
+    destruct (PointDouble_limbs_correct (X1, Y1, Z1) HJ1) as [L E].
     split; [exact L|]. exact E.
   - destruct (prog_refines X1 Y1 Z1 X2 Y2 Z2 pa_x HX1 HY1 HZ1 HX2 HY2 HZ2 Ox) as [Lx Ex].
     destruct (prog_refines X1 Y1 Z1 X2 Y2 Z2 pa_y HX1 HY1 HZ1 HX2 HY2 HZ2 Oy) as [Ly Ey].
     destruct (prog_refines X1 Y1 Z1 X2 Y2 Z2 pa_z HX1 HY1 HZ1 HX2 HY2 HZ2 Oz) as [Lz Ez].
     split; [repeat split; assumption|]. cbn [fst snd]. rewrite Ex, Ey, Ez. fold rf.
-    unfold pa_x, pa_y, pa_z, pa_h2, pa_r, pa_h, pa_s2, pa_s1, pa_u2, pa_u1, pa_z23, pa_z13, pa_z22, pa_z12, rf.
-    cbn [eval_fe env6]. unfold Mul_model, Square_model, AddFe_model, SubFe_model. reflexivity.
+    cbv beta iota zeta delta [pa_x pa_y pa_z pa_h2 pa_r pa_h pa_s2 pa_s1 pa_u2 pa_u1 pa_z23 pa_z13 pa_z22 pa_z12 rf
+                              eval_fe env6 Mul_model Square_model AddFe_model SubFe_model sm2P256Scalar].
+    reflexivity.
 Qed.
 
 Theorem PointSub_limbs_correct : forall J1 J2, looseJ J1 -> looseJ J2 ->
@@ -218,8 +220,8 @@ Proof.
   unfold PointSub_limbs, PointSub_model, sm2P256PointSub, feJ. cbn [fst snd].
   destruct (fe_FromBig (0 - fe Y2)) as [LN EN].
   rewrite ToBig_fe.
-  destruct (PointAdd_limbs_correct J1 (X2, sm2P256FromBig_limbs (0 - fe Y2), Z2) H1) as [L E];
-    [repeat split; assumption|].
+  assert (HJ2 : looseJ (X2, sm2P256FromBig_limbs (0 - fe Y2), Z2)) by exact (conj HX2 (conj LN HZ2)).
+  destruct (PointAdd_limbs_correct J1 (X2, sm2P256FromBig_limbs (0 - fe Y2), Z2) H1 HJ2) as [L E].
   split; [exact L|]. split; [exact LN|]. split; [|exact EN].
   unfold PointAdd_limbs, PointAdd_model, sm2P256PointAdd, feJ in E. cbn [fst snd] in E.
   rewrite EN in E. exact E.
